@@ -885,6 +885,7 @@ func (req *IdpAuthnRequest) MakeAssertionEl() error {
 	{
 		doc := etree.NewDocument()
 		doc.SetRoot(signedAssertionEl)
+		doc.WriteSettings = xmlWriteSettings
 		signedAssertionBuf, err = doc.WriteToBytes()
 		if err != nil {
 			return err
@@ -929,6 +930,7 @@ func (req *IdpAuthnRequest) PostBinding() (IdpAuthnRequestForm, error) {
 
 	doc := etree.NewDocument()
 	doc.SetRoot(req.ResponseEl)
+	doc.WriteSettings = xmlWriteSettings
 	responseBuf, err := doc.WriteToBytes()
 	if err != nil {
 		return form, err
@@ -1025,6 +1027,7 @@ func (req *IdpAuthnRequest) getSPEncryptionCert() (*x509.Certificate, error) {
 func unmarshalEtreeHack(el *etree.Element, v interface{}) error {
 	doc := etree.NewDocument()
 	doc.SetRoot(el)
+	doc.WriteSettings = xmlWriteSettings
 	buf, err := doc.WriteToBytes()
 	if err != nil {
 		return err
